@@ -12,12 +12,13 @@ import itertools
 from zope.interface import Interface, classImplements, directlyProvides, providedBy
 from zope.interface.interface import InterfaceClass
 from zope.interface.adapter import AdapterRegistry, VerifyingAdapterRegistry
+from .common import wmod, newworld
 
 FLAVOURS = {'adapter': AdapterRegistry, 'verifying': VerifyingAdapterRegistry}
 
 
 def mk(n, *b):
-    return InterfaceClass(n, b or (Interface,), {'__module__': 'w'})
+    return InterfaceClass(n, b or (Interface,), {'__module__': wmod()})
 
 
 class Fac:
@@ -34,6 +35,7 @@ class Fac:
 
 class H:
     def __init__(self):
+        newworld()
         self.R0 = R0 = mk('R0')
         self.R1 = R1 = mk('R1', R0)
         self.P0 = P0 = mk('P0')
